@@ -38,6 +38,10 @@ type Tape struct {
 	TCP      bool             `json:"tcp,omitempty"`
 	Salt     string           `json:"salt,omitempty"`
 	Iter     int              `json:"iter,omitempty"`
+	// PriorIter: before the judged exchange another client object of the same process (same user,
+	// same password) logged in while the account was keyed with this iteration count; the account
+	// has been re-keyed to Iter since
+	PriorIter int `json:"prior_iter,omitempty"`
 }
 
 type pert struct {
@@ -57,6 +61,7 @@ var perts = []pert{
 	{"authtime-year", []int64{9999, 2400, 2293, 1970, 1700}},
 	{"starttime", []int64{-301 * sec, 301 * sec, -300 * sec, 300 * sec, -299 * sec, 299 * sec, -3600 * sec, 86400 * sec}},
 	{"other-key", nil},
+	{"key-of-earlier-s2kparams", nil},
 	{"other-usage", []int64{3, 8, 9, 2}},
 	{"enc-tag", []int64{25, 26, 3}},
 	{"msg-type", []int64{11, 13}},
@@ -105,7 +110,7 @@ func Meta() core.Meta {
 		Rule:       "case = one run: a real client (keytab or password credential, one etype) performs an AS exchange, a TGS exchange or a referral chain against the reference KDC while exactly one reply is perturbed: a sealed or outer field changed (nonce +-1, cname, crealm, sname, srealm, ticket realm and ticket sname, addresses, authtime and starttime - together and starttime alone - at and beyond the skew bound), sealed under another key / key usage / tag, ciphertext damaged, truncated, duplicated, replaced by the reply to the previous request, or replaced by a KRB-ERROR with each code 1..93; sweep = every single perturbation x 6 etypes x 3 exchanges + every error code x {AS,TGS} (quick: keytab without and password with pre-authentication; thorough: two more credential/flow combinations); seeded runs add a second perturbation, hint layouts, transports and salts; distinct = distinct (exchange, flow, credential, etype, perturbations, outcome); non-trivial = a perturbation or network fault took effect",
 		SweepQuick: q * 2, SweepThorough: q * 4,
 		SeededQuick: 1500, SeededThorough: 100000,
-		WorkloadProbes: []string{"perturbed-reply-delivered", "krb-error-delivered", "stale-reply-delivered", "truncated-reply-delivered", "addresses-requested", "preauth-round-trip", "referral-followed", "honest-exchange"},
+		WorkloadProbes: []string{"perturbed-reply-delivered", "krb-error-delivered", "stale-reply-delivered", "truncated-reply-delivered", "addresses-requested", "preauth-round-trip", "referral-followed", "honest-exchange", "account-rekeyed-after-an-earlier-login-of-the-process"},
 		Components: map[string]string{
 			"client.Login/GetServiceTicket, ASExchange, TGSExchange, ASRep/TGSRep Unmarshal+Verify+DecryptEncPart, GetKeyFromPassword, keytab look-up, network code, krb5.conf parser": "real",
 			"KDC (honest and Byzantine), reply adversary": "stub: refkdc + simulated network",
@@ -178,6 +183,10 @@ func Gen(caseID, tier string) (json.RawMessage, error) {
 		}
 		if s.p != nil {
 			tp.Perturb = []refkdc.Perturb{*s.p}
+			if s.p.Kind == "key-of-earlier-s2kparams" && tp.Cred == "password" && tp.Etype >= 17 && tp.Etype <= 20 {
+				// (for keytab credentials and types without string-to-key parameters there is no such key: a no-op)
+				tp.Iter, tp.PriorIter = 5000, 50
+			}
 		}
 		tp.Net, tp.NetArg = s.net, s.netArg
 		return core.MustJSON(tp), nil
@@ -214,6 +223,20 @@ func Gen(caseID, tier string) (json.RawMessage, error) {
 		}
 	}
 	tp.Hop = r.Intn(2)
+	if tp.Cred == "password" && (tp.Etype == 17 || tp.Etype == 18) && r.Chance(1, 2) {
+		// an earlier login of the same process under other string-to-key parameters; in half of these
+		// runs the attacked reply is sealed under the key of those earlier parameters
+		if tp.Iter == 0 {
+			tp.Iter = r.PickInt(100, 4095, 5000)
+		}
+		tp.PriorIter = r.PickInt(1, 50, 4096, 4097)
+		if tp.PriorIter == tp.Iter {
+			tp.PriorIter++
+		}
+		if r.Chance(1, 2) {
+			tp.Perturb = append(tp.Perturb, refkdc.Perturb{Kind: "key-of-earlier-s2kparams"})
+		}
+	}
 	np := r.PickInt(0, 1, 1, 1, 2)
 	for i := 0; i < np; i++ {
 		s := ss[1+r.Intn(len(ss)-1)]
@@ -224,7 +247,8 @@ func Gen(caseID, tier string) (json.RawMessage, error) {
 				// extended by one byte and cut by one byte)
 				dup = dup || q.Kind == s.p.Kind || (strings.HasPrefix(q.Kind, "caddr") && strings.HasPrefix(s.p.Kind, "caddr")) ||
 					(strings.HasPrefix(q.Kind, "enc-") && strings.HasPrefix(s.p.Kind, "enc-")) ||
-					(isTimeKind(q.Kind) && isTimeKind(s.p.Kind))
+					(isTimeKind(q.Kind) && isTimeKind(s.p.Kind)) ||
+					(q.Kind == "key-of-earlier-s2kparams" && (s.p.Kind == "other-key" || s.p.Kind == "other-usage"))
 			}
 			if dup {
 				continue
